@@ -163,12 +163,12 @@ def run(v, tier, seed, replay):
         q = queries[int(qid)]
         su = q["su"]
         w = where(q, setups[sukey(su)]["g"])
-        key = "%s/%s/%s/%s" % (fn, su["kind"], w, what.split(":")[0]) + {"2": "/after-refused-evolve", "3": "/after-move-assign", "4": "/after-move-ctor"}.get(mode, "")
+        key = "%s/%s/%s/%s" % (fn, su["kind"], w, what.split(":")[0]) + {"2": "/after-refused-evolve", "3": "/after-move-assign", "4": "/after-move-ctor", "9": "/off-lattice"}.get(mode, "")
         seen[key] = seen.get(key, 0) + 1
         if seen[key] <= 2:
             v.violation(key, "%s d=%d %s grid(4x)=%s hist=%s (t-t_ini=%d*pi/4, %s) x4=%d irho=%s op=%s: %s err=%s tol=%s" % (
                 fn, su["d"], su["kind"], setups[sukey(su)]["g"], q["hist"], q["a"]["K"],
-                {"0": "clock only", "1": "ODE solver, HI=0", "2": "after an Evolve refused by GSL, clock only", "3": "object received by move assignment", "4": "object received by move construction"}.get(mode, mode), q["a"]["x4"], ir, op, what, errv, tol),
+                {"0": "clock only", "1": "ODE solver, HI=0", "2": "after an Evolve refused by GSL, clock only", "3": "object received by move assignment", "4": "object received by move construction", "9": "generic elapsed time and positions"}.get(mode, mode), q["a"]["x4"], ir, op, what, errv, tol),
                 {"su": su, "hist": q["hist"], "x4": q["a"]["x4"], "fn": fn, "irho": int(ir), "op": int(op), "what": what})
     v.cov["mismatch_classes"] = seen
     q = queries[len(queries) // 2]
